@@ -106,6 +106,9 @@ func failing() []hx.Op {
 		{K: hx.VAddBatch, I: "i", Items: []hx.Item{{ID: "n1", V: v(8, 8)}, {ID: "n2", V: v(7, 7), M: map[string]any{"s": "new"}}, {ID: "a", V: v(9, 9)}}},
 		{K: hx.VAddBatch, I: "i", Items: []hx.Item{{ID: "n1", V: v(8, 8)}, {ID: "n1", V: v(7, 7)}}},
 		{K: hx.VImport, I: "i", Items: []hx.Item{{ID: "n1", V: v(8, 8)}, {ID: "a", V: v(7, 7)}}},
+		// metadata that cannot be serialised for the log (a NaN): alone, and as a later item of a batch
+		{K: hx.VAdd, I: "i", ID: "n1", V: v(8, 8), M: map[string]any{"x": hx.NaNMarker}},
+		{K: hx.VAddBatch, I: "i", Items: []hx.Item{{ID: "n1", V: v(8, 8), M: map[string]any{"s": "new"}}, {ID: "n2", V: v(7, 7), M: map[string]any{"x": hx.NaNMarker}}, {ID: "n3", V: v(6, 6)}}},
 		{K: hx.VAdd, I: "nope", ID: "z", V: v(1, 1)},
 		{K: hx.VAddBatch, I: "nope", Items: []hx.Item{{ID: "z", V: v(1, 1)}}},
 		{K: hx.VDel, I: "nope", ID: "a"},
